@@ -44,6 +44,13 @@ CLAIMED = {
  "C07": ("property-based testing (proptest histories with a withheld template, two parser instances, replay after late delivery) against reference decoder + cache model",
          "Generated conformant histories in which every template record of one (protocol, id) is withheld while its data is still sent at arbitrary positions; the template is then given to another parser instance only, later to the first parser, and the same data bytes are replayed. A V9 packet with such data must be the final Error; an IPFIX message must contain no set of that id; caches must equal the model after every call; everything else must equal the reference decode; after delivery the replayed bytes must decode to the reference records.",
          "For IPFIX both 'decoding stops at the unknown set' and 'only that set is skipped' count as omitting the set.", "DESIGN.md §4 C07"),
+
+ "C13": ("property-based testing (proptest: templates over the ten projected elements) against a projection computed from an independent reference decode",
+         "Generated V5/V7 packets and conformant V9/IPFIX histories whose templates hold random subsets/orders of the projected elements (IPv4 or IPv6 variants) mixed with unrelated fields: as_netflow_common must give the right version, timestamp, one flow per data record in order and every member equal to the value derived from the wire bytes (None iff the template lacks the element); Error elements must convert to Err; parse_bytes_as_netflow_common_flowsets must equal the in-order concatenation.",
+         "Projected elements use their natural widths and occur at most once per template.", "DESIGN.md §4 C13"),
+ "C14": ("property-based testing (proptest valid packets) with exhaustive enumeration of every cut point per generated packet",
+         "For generated valid packets of every version (templates pre-loaded, 0..2 valid packets in front), every interior cut point (V9: all but flowset boundaries) is executed: the result must be the preceding packets unchanged plus exactly one Error carrying the truncated bytes, and the caches must be unchanged (V9: changed only by the complete template flowsets before the cut).",
+         "The untruncated buffer must itself parse cleanly (checked per case).", "DESIGN.md §4 C14"),
 }
 NOT_YET = {}
 
